@@ -261,7 +261,7 @@ def gen_scene(rng, big=False, crowded=False, empty=None, border_band=False, elon
         "refinement": rng.choice([None, None, "integral", "integral", "local"]), "patch": rng.choice([3, 5]),
         "n_points": rng.choice([5, 7, 15]) if rng.random() < 0.3 else 10,
         "ratio": ratio, "weight": rng.choice([1.0, 1.0, 0.5]), "min_line": rng.choice([0.25, 0.25, 0.1, 0.4]),
-        "min_peaks": 0, "threshold": rng.choice([0.2, 0.2, 0.1, 0.3]),
+        "min_peaks": 0, "threshold": rng.choice([0.2, 0.2, 0.1, 0.3]), **naming(rng, n_nodes),
     }
 
 
@@ -278,7 +278,11 @@ def scene_tags(sc, b):
               math.hypot(float(an[u][0] - an[v][0]), float(an[u][1] - an[v][1])) > ml
               for an in fr for (u, v) in sc["edges"])
     cs, ps = sc["cs"], sc["ps"]
-    return [f"n_points={sc['n_points']}", f"weight={sc['weight']}", f"ratio={sc['ratio']}", f"min_line={sc['min_line']}",
+    srt = sc.get("names") is not None and sorted((sc["names"][u], sc["names"][v]) for u, v in sc["edges"]) == \
+        [(sc["names"][u], sc["names"][v]) for u, v in sc["edges"]]
+    return ["scorer_via_from_config" if sc.get("via_config") else "scorer_via_constructor",
+            "edge_listing_alphabetical" if srt or sc.get("names") is None else "edge_listing_not_alphabetical",
+            f"n_points={sc['n_points']}", f"weight={sc['weight']}", f"ratio={sc['ratio']}", f"min_line={sc['min_line']}",
             f"threshold={sc['threshold']}", f"eff={sc['effs'][b]}",
             f"patch={sc['patch']}" if sc["refinement"] == "integral" else "patch=n/a",
             "penalty_active" if pen else "penalty_inactive",
@@ -407,8 +411,18 @@ def tree_is_fixed():
     return _FIXED
 
 
+PART_NAMES = ["head", "thorax", "abdomen", "wingL", "wingR", "tail", "legL1", "legR1", "antenna", "eye"]
+
+
+def naming(rng, n_nodes):
+    """part names (random permutation of a pool, so that the edge listing is in general NOT alphabetically sorted)
+    and whether the scorer is built through `PAFScorer.from_config` (as the predictors do) or the constructor"""
+    return {"names": rng.sample(PART_NAMES, n_nodes), "via_config": rng.random() < 0.6}
+
+
 class Recorder:
     def __init__(self):
+        self.scorer_edges = None
         self.peaks = None
         self.subs = []
         self.lsa = []
@@ -447,11 +461,20 @@ def run_impl(sc, graph=True):
     from sleap_nn.data.edge_maps import generate_pafs
 
     rec = Recorder()
-    names = [f"n{i}" for i in range(sc["n_nodes"])]
-    scorer = pg.PAFScorer(part_names=names, edges=[(f"n{u}", f"n{v}") for u, v in sc["edges"]],
-                          pafs_stride=sc["ps"], max_edge_length_ratio=sc["ratio"],
-                          dist_penalty_weight=sc["weight"], n_points=sc["n_points"],
-                          min_instance_peaks=sc["min_peaks"], min_line_scores=sc["min_line"])
+    names = list(sc.get("names") or [f"n{i}" for i in range(sc["n_nodes"])])
+    kw = dict(max_edge_length_ratio=sc["ratio"], dist_penalty_weight=sc["weight"], n_points=sc["n_points"],
+              min_instance_peaks=sc["min_peaks"], min_line_scores=sc["min_line"])
+    if sc.get("via_config"):
+        # the way the predictors build it: `PAFScorer.from_config` on the head config (nested list configs)
+        from omegaconf import OmegaConf
+        cfg = OmegaConf.create({"confmaps": {"part_names": names},
+                                "pafs": {"edges": [[names[u], names[v]] for u, v in sc["edges"]],
+                                         "output_stride": sc["ps"]}})
+        scorer = pg.PAFScorer.from_config(cfg, **kw)
+    else:
+        scorer = pg.PAFScorer(part_names=names, edges=[(names[u], names[v]) for u, v in sc["edges"]],
+                              pafs_stride=sc["ps"], **kw)
+    rec.scorer_edges = [tuple(int(x) for x in e) for e in scorer.edge_inds]
     model = bu.BottomUpInferenceModel(
         torch_model=make_stub(torch, sc, generate_multiconfmaps, generate_pafs), paf_scorer=scorer,
         cms_output_stride=sc["cs"], pafs_output_stride=sc["ps"], peak_threshold=sc["threshold"],
@@ -661,6 +684,9 @@ def impl_phase(chk, sc):
         chk.disagree("forward raises", frac_json(sc), f"raise:{res[1]}: {res[2]}", "ok")
         return {"sc": sc, "raised": f"forward raised {res[1]}: {res[2]}", "lines": []}
     out = res[1]
+    if rec.scorer_edges != [tuple(e) for e in sc["edges"]]:
+        chk.disagree("PAFScorer.edge_inds == the listed edges (edge k ↔ PAF channels 2k, 2k+1)", frac_json(sc),
+                     rec.scorer_edges, [tuple(e) for e in sc["edges"]])
     nT = sc["n_points"]
     ts32 = [float(x) for x in torch.linspace(0, 1, steps=nT)]
     g, vals, sinds, chans = rec.peaks
@@ -1018,6 +1044,7 @@ def gen_coarse_family(rng):
         if not ok:
             continue
         sc["frames"] = [animals]
+        sc.update(naming(rng, n_nodes))
         good = True
         for an in animals:
             for (u, v) in sc["edges"]:
@@ -1042,7 +1069,11 @@ def gen_coincident_family(rng):
     size = rng.choice([128, 160])
     L = rng.randrange(3 * ps, 6 * ps)
     ax, ay = rng.randrange(16, size // 2 - 8), rng.randrange(16, size - 16)
-    bx, by = rng.randrange(size // 2 + 8, size - L - 12), rng.randrange(16, size - 16)
+    # B is kept off A's row/line (≥ 32 px in y): a candidate from A's peak running along B's limb would pass
+    # min_line_scores and the sentinel-forced anti-diagonal would then *mix* the animals instead of only losing B —
+    # same mechanism, but the signature of F-C03b is deliberately limited to the "only missing edges" effect
+    bx = rng.randrange(size // 2 + 8, size - L - 12)
+    by = rng.choice([y for y in range(16, size - 16) if abs(y - ay) >= 32])
 
     def q(x, y):
         fx, fy = Fraction(x), Fraction(y)
